@@ -230,8 +230,8 @@ class FromdictMonitor(Monitor):
 
 
 def setup(concepts, spec):
-    attach.attach(concepts.contexts.Data, '__init__', InitMonitor())
-    attach.attach(concepts.contexts.Data, 'fromdict', FromdictMonitor())
+    attach.attach(concepts.Context, '__init__', InitMonitor())
+    attach.attach(concepts.Context, 'fromdict', FromdictMonitor())
 
 
 # ---------------------------------------------------------------------------
